@@ -45,6 +45,34 @@ func ptrFan(n int) []byte {
 	return v
 }
 
+// ptrChainFan: links "label + pointer to the previous link" in the first third of the n bytes (the first link ends in a
+// root octet), pointers to the last link in the rest.  kind 0: 63-octet labels, kind 1: 3-octet labels.
+func ptrChainFan(n, kind int) []byte {
+	ll := 63
+	if kind == 1 {
+		ll = 3
+	}
+	var v []byte
+	prev := -1
+	for len(v)+1+ll+2 <= n/3 && len(v) < 0x3f00 {
+		start := len(v)
+		v = append(v, byte(ll))
+		for i := 0; i < ll; i++ {
+			v = append(v, byte('a'+i%26))
+		}
+		if prev < 0 {
+			v = append(v, 0)
+		} else {
+			v = append(v, 0xC0|byte(prev>>8), byte(prev))
+		}
+		prev = start
+	}
+	for prev >= 0 && len(v)+2 <= n {
+		v = append(v, 0xC0|byte(prev>>8), byte(prev))
+	}
+	return v
+}
+
 func msg6(opts []byte) []byte { return append([]byte{1, 0xa, 0xb, 0xc}, opts...) }
 
 type family struct {
@@ -69,6 +97,11 @@ var families = []family{
 		}
 		return msg6(tlv(24, v))
 	}},
+	// chains of compression pointers: every link is one 63-octet label followed by a pointer to the previous link, then a
+	// fan of pointers to the last link.  A decoder that follows chains must carry the 255-octet budget across the hops;
+	// one that does not follow them rejects the second link.  Either way the cost stays small.
+	{"ptrchain-fan", "v6", false, func(n int) []byte { return msg6(tlv(24, ptrChainFan(n-8, 0))) }},
+	{"ptrchain-fan-short-links", "v6", false, func(n int) []byte { return msg6(tlv(56, tlv(3, ptrChainFan(n-12, 1)))) }},
 	{"unterminated-label-chain", "v6", false, func(n int) []byte {
 		var v []byte
 		for len(v)+2 <= n-8 {
